@@ -116,6 +116,7 @@ def fragment_class(fragment: str, form: str) -> str:
     return "other"
 
 
+DANGEROUS_CLASSES = ["double-quote", "single-quote", "comment-close", "backslash", "backslash-u", "markup", "template"]
 DOC_CLASSES = sorted({fragment_class(f, "text") for f in DOC_FRAGMENTS})
 VALUE_CLASSES = sorted({fragment_class(f, "value") for f in LIT_FRAGMENTS})
 
@@ -458,8 +459,9 @@ def text_specs(draw: Any, max_classes: int = 4, adversarial: float = 0.45,
         elif doc_form == "text-at-end":
             doc_class = draw(st.sampled_from(sorted({fragment_class(f, doc_form) for f in DOC_END_FRAGMENTS})))
         else:
-            doc_class = draw(st.sampled_from(DOC_CLASSES))
-        value_class = draw(st.sampled_from(VALUE_CLASSES))
+            # the classes that can terminate something get more weight than the harmless ones
+            doc_class = draw(st.sampled_from(DOC_CLASSES + [c for c in DANGEROUS_CLASSES if c in DOC_CLASSES] * 4))
+        value_class = draw(st.sampled_from(VALUE_CLASSES + [c for c in DANGEROUS_CLASSES if c in VALUE_CLASSES] * 2))
     planter = Planter(avoid, doc_class, doc_form, value_class)
     p_doc = draw(st.sampled_from([0.5, 0.8, 1.0]))
 
